@@ -61,10 +61,10 @@ func main() {
 			os.Exit(2)
 		}
 		for _, n := range strings.Split(*sym, ",") {
-			o := symPaths(c.ssaFn(c.fn(c.fit, n)), nil, 3)
+			o := symPathsOpaque(c.ssaFn(c.fn(c.fit, n)), 3, strings.Split(os.Getenv("SYM_OPAQUE"), ",")...)
 			fmt.Println(n, "why:", o.why)
 			for _, p := range o.paths {
-				fmt.Println("   ", p, p.mem)
+				fmt.Println("   ", p, p.mem, p.calls)
 			}
 		}
 		os.Exit(0)
